@@ -96,7 +96,7 @@ def classify_exc(e):
         return 'order'
     if isinstance(e, E.DiffXContentError):
         return 'content'
-    if isinstance(e, E.DiffXOptionValueChoiceError):
+    if isinstance(e, E.DiffXOptionValueError):
         return 'option'
     return 'other'
 
